@@ -655,3 +655,64 @@ def r19(ctx: Ctx) -> RuleReport:
                         f'exhaustive for all token-kind sequences of at most {L} tokens with nesting at most {D}; the machines are '
                         f'finite-state above a bounded stack, so deeper nesting repeats the same states']
     return rep
+
+
+@rule('R69', 'text taken from the token stream is never dropped: a local holding token text is used on every path to a normal return')
+def r69(ctx: Ctx) -> RuleReport:
+    from ..resolve import view
+    from ..cfg import assigned_names
+    rep = RuleReport('R69', r69.title, floor=4)
+    mod = ctx.repo.module('penman._parse')
+    funcs = list(mod.all_funcs)
+    # helpers that hand back token text: some return value mentions `.text`
+    text_helpers = {f.fq for f in funcs if any(isinstance(r, ast.Return) and r.value is not None and any(
+        isinstance(x, ast.Attribute) and x.attr == 'text' for x in ast.walk(r.value)) for r in walk_local(f.node))}
+
+    def carries_text(f: FuncInfo, e: ast.AST) -> bool:
+        for x in ast.walk(e):
+            if isinstance(x, ast.Attribute) and x.attr == 'text':
+                return True
+            if isinstance(x, ast.Call):
+                if any(t.kind == 'func' and t.func.fq in text_helpers for t in ctx.cg.resolve_call(x, f)):
+                    return True
+        return False
+    for f in funcs:
+        v = view(ctx, f)
+        cfg = v.cfg
+        rets = {nd.id for nd in cfg.nodes if nd.kind == 'stmt' and isinstance(nd.ast, ast.Return)}
+        for nd in cfg.nodes:
+            if nd.kind != 'stmt' or not isinstance(nd.ast, (ast.Assign, ast.AugAssign, ast.AnnAssign)):
+                continue
+            val = nd.ast.value
+            if val is None or not carries_text(f, val):
+                continue
+            skip = set()
+            if isinstance(nd.ast, ast.Assign) and isinstance(nd.ast.targets[0], ast.Tuple) and len(nd.ast.targets[0].elts) == 3 \
+                    and isinstance(val, ast.Call) and isinstance(val.func, ast.Attribute) and val.func.attr in ('partition', 'rpartition'):
+                skip.add(norm(nd.ast.targets[0].elts[1]))          # the separator itself is structure, not content
+            for name in sorted(assigned_names(nd.ast) - skip):
+                def uses(n2, name=name):
+                    if n2.ast is None or n2.id == nd.id:
+                        return False
+                    root = n2.ast
+                    if n2.kind in ('cond',):
+                        root = n2.ast
+                    elif isinstance(root, (ast.For, ast.While, ast.If)):
+                        root = getattr(root, 'test', None) or getattr(root, 'iter', None)
+                    if root is None:
+                        return False
+                    for x in ast.walk(root):
+                        if isinstance(x, ast.Name) and x.id == name and isinstance(x.ctx, ast.Load):
+                            return True
+                    # an augmented assignment reads its target
+                    return isinstance(n2.ast, ast.AugAssign) and n2.kind == 'stmt' and norm(n2.ast.target) == name
+                # a return that itself uses the name is a use; so search for a path to a return that does not pass any use
+                dead_rets = {r for r in rets if not uses(cfg.nodes[r])}
+                path = cfg.path_avoiding([(nd.id, None)], dead_rets, uses) if dead_rets else None
+                # a re-definition without use on the way also drops the text
+                key = f'{f.module.name}:{f.qualname}: {norm(nd.ast)[:60]}'
+                rep.add(key, f.loc(nd.ast), 'violation' if path else 'ok',
+                        f'`{name}` holds text taken from the token stream, but the function can return without using it ('
+                        + ' -> '.join(repr(cfg.nodes[x]) for x in path[-4:])[:220] + '): that token disappears from the parsed result, so formatting the tree does '
+                        'not reproduce the text' if path else '')
+    return rep
